@@ -1065,3 +1065,58 @@ def rule_R2(prog, fixture=False):
     if not n and not fixture:
         res.broken.append("anchor vanished: none of the tabulated entry points / parameters exists")
     return res
+
+
+# =================================================================================================
+# N4 NARROW-CURSOR: a running position is not kept in an integer type narrower than int  (C05, C08)
+def rule_N4(prog, fixture=False):
+    res = RuleResult("N4", "a local integer that is advanced inside a loop (+=, ++, or x = x + e) and used as a subscript or pointer offset "
+                           "has at least the width of int: a 16- or 8-bit cursor (typically deduced by `auto` from a table of small "
+                           "integers) wraps at 65536 / 256 and the accesses start again from the front of the buffer")
+    n = 0
+    for f in sorted(prog.functions.values(), key=lambda f: (f.file, f.line, f.name)):
+        if f.get("implicit") or f.file.endswith("coverage.cc"):
+            continue
+        rel = prog.rel(f.file)
+        if not fixture and not (rel.startswith("lib/") or rel.startswith("include/")):
+            continue
+        for v in f.walk():
+            if v.k != "VarDecl" or not v.decl or v.decl.get("k") != "local" or v.tc != "int":
+                continue
+            w = v.get("w")
+            if w is None or w >= 32:
+                continue
+            vid = v.decl["id"]
+            advanced, used = None, None
+            for x in f.walk():
+                in_loop = any(a.k in ("ForStmt", "WhileStmt", "DoStmt", "CXXForRangeStmt") for a in x.ancestors())
+                if in_loop and x.k in ("CompoundAssignOperator", "UnaryOperator") and x.op in ("+=", "-=", "++", "--") and x.c:
+                    t = x.c[0].strip_all()
+                    if t.k == "DeclRefExpr" and t.decl and t.decl.get("id") == vid:
+                        advanced = x
+                if in_loop and x.k == "BinaryOperator" and x.op == "=" and len(x.c) == 2:
+                    t = x.c[0].strip_all()
+                    if t.k == "DeclRefExpr" and t.decl and t.decl.get("id") == vid and \
+                            any(y.k == "DeclRefExpr" and y.decl and y.decl.get("id") == vid for y in x.c[1].walk()):
+                        advanced = x
+                is_sub = (x.k == "ArraySubscriptExpr" and len(x.c) == 2) or (x.k == "CXXOperatorCallExpr" and x.op == "[]" and len(x.c) == 3) \
+                    or (x.k == "BinaryOperator" and x.op in ("+", "-") and x.tc == "ptr")
+                if is_sub:
+                    idx = x.c[-1] if x.k != "BinaryOperator" else (x.c[1] if x.c[0].strip().tc == "ptr" else x.c[0])
+                    if any(y.k == "DeclRefExpr" and y.decl and y.decl.get("id") == vid for y in idx.walk()):
+                        used = x
+            if advanced is None:
+                continue
+            n += 1
+            key = "N4:%s:%s" % (fkey(f), v.decl["n"])
+            where = "%s:%d" % (rel, v.line)
+            what = "%s %s in %s" % (v.decl.get("dt") or v.type, v.decl["n"], f.short)
+            extra = {"props": ["C05", "C08"]}
+            if used is not None:
+                res.add(key, VIOLATED, "%s:%d" % (rel, advanced.line), what,
+                        "%s advances a %d-bit variable that indexes storage (%s): it wraps after %d steps of one and the access "
+                        "restarts at the front" % (advanced.text()[:50], w, used.text()[:50], 2 ** w), func=f.name, extra=extra)
+            else:
+                res.add(key, DISCHARGED, where, what, "advanced in a loop but never used as an index or pointer offset", func=f.name, extra=extra)
+    res.stats["narrow_cursors"] = n
+    return res
